@@ -67,3 +67,19 @@ def _rewrite_then_stop(plan, viol):
     result is built from the rewritten but unfiltered history."""
     w = viol.get("witness", {})
     return w.get("stopped_right_after_rewrite") is True and w.get("where") == "result"
+
+
+@disc("factorisation_breakdown_on_degenerate_memory")
+def _factorisation_breakdown(plan, viol):
+    """A run forced to go on after convergence (gtol = ftol = 0) keeps more pairs than there are
+    variables, with curvatures s.y spread over more than ten orders of magnitude; the Cholesky factorisation of the middle matrix then breaks
+    down (LinAlgError, or NaN -> ValueError) and the solver has no fallback (the reference code
+    refreshes the memory in that case)."""
+    w = viol.get("witness", {})
+    exc = str(w.get("exception", ""))
+    # more stored pairs than variables (S is rank deficient) and curvatures spread over > 1e10
+    return (
+        ("LinAlgError" in exc or "infs or NaNs" in exc)
+        and int(w.get("pairs_in_last_state", 0)) + 1 > int(w.get("n", 10**9))
+        and float(w.get("sy_spread_in_last_state", 0.0)) > 1e10
+    )
